@@ -441,6 +441,29 @@ func (c *c39State) halfOpen(rt *rapid.T, w *nsWorld, h *nsHist) {
 			vk.Label(w.pidLabel(), "third-host-answers-a-relay-request")
 		}
 	}
+	// Or a third host asks the relay for the same pair in x's name (CreateRelayRequest with x's address
+	// as source, over its own tunnel) and the network then lets the relay and y talk. Whatever y
+	// agrees to, it is a relay with the host that asked - x's half-open entry must not come alive.
+	if len(hosts) >= 3 && rapid.IntRange(0, 2).Draw(rt, "ho.impersonate") == 0 {
+		var zs []int
+		for _, k := range hosts {
+			if k != xi && k != yi {
+				zs = append(zs, k)
+			}
+		}
+		zi := zs[rapid.IntRange(0, len(zs)-1).Draw(rt, "ho.imp.z")]
+		z := w.nodes[zi]
+		if hz := z.ctrl.f.hostMap.QueryVpnAddr(w.specs[c.relayIdx].nets[0].Addr()); hz != nil && hz.ConnectionState != nil {
+			req2 := NebulaControl{Type: NebulaControl_CreateRelayRequest, InitiatorRelayIndex: rapid.Uint32().Draw(rt, "ho.imp.idx"),
+				RelayFromAddr: netAddrToProtoAddr(w.specs[xi].nets[0].Addr()), RelayToAddr: netAddrToProtoAddr(w.specs[yi].nets[0].Addr())}
+			b2, _ := req2.Marshal()
+			z.ctrl.f.SendMessageToHostInfo(header.Control, 0, hz, b2, make([]byte, 12), make([]byte, mtu))
+			w.s.settle()
+			h.note("%s asks the relay for a relay %s->%s in %s's name", z.name, x.name, w.specs[yi].name, x.name)
+			h.flush(6) // relay -> y request, y -> relay response, relay -> requester response
+			vk.Label(w.pidLabel(), "relay-request-in-another-hosts-name")
+		}
+	}
 	x.ctrl.f.SendVia(hi, &Relay{RemoteIndex: idx}, []byte("half-open-probe-0123456789abcdef"), make([]byte, 12), make([]byte, mtu), false, 0)
 	w.s.settle()
 	c.hostileData++
